@@ -1566,8 +1566,22 @@ def attr_fixed_cases() -> list:
     return cases
 
 
+def _flow_of_size(total: int, v6: bool, rd: bool) -> dict:
+    """a flow rule whose NLRI value (route distinguisher, destination, destination-port tests) is exactly `total` octets"""
+    base = (7 if v6 else 5) + (8 if rd else 0) + 1
+    room = total - base
+    two = {0: 0, 2: 1, 1: 2}[room % 3]  # room = 3 * three + 2 * two
+    three = (room - 2 * two) // 3
+    ports = [1000 + i for i in range(three)] + [10 + i for i in range(two)]
+    case = {'kind': 'flow', 'dest': '2001:db8::/32' if v6 else '10.0.0.0/24', 'ports': ports, 'session': 'plain'}
+    if rd:
+        case['rd'] = '65000:1'
+    return case
+
+
 def route_fixed_cases() -> list:
-    cases = [
+    cases = [_flow_of_size(total, v6, rd) for total in (238, 239, 240, 241, 242, 255, 256, 257, 4094, 4095) for v6 in (False, True) for rd in (False, True)]
+    cases += [
         {'kind': 'flow', 'dest': '10.0.0.0/24', 'ports': list(range(1000, 1070)), 'session': 'plain'},
         {'kind': 'flow', 'dest': '10.0.0.0/24', 'ports': list(range(1000, 1080)), 'session': 'plain'},  # 4 + 3 * 80 = 244 bytes: the two-byte length form
         {'kind': 'flow', 'dest': '10.0.0.0/24', 'ports': list(range(1000, 1130)), 'session': 'plain'},  # 394 bytes
